@@ -166,7 +166,8 @@ def run_case(
     kwargs: dict[str, Any] = {}
     sel = cfg.get("select")
     if sel is not None:
-        kwargs["select"] = sel
+        # callers also pass a tuple (graph.selected is one): same meaning as the list
+        kwargs["select"] = tuple(sel) if cfg.get("selectAsTuple") and isinstance(sel, list) else sel
     if "onMissing" in cfg:
         kwargs["on_missing"] = cfg["onMissing"]
     if "errMode" in cfg:
